@@ -324,6 +324,18 @@ def targeted(info):
             out.append({"kind": "recv", "waitall": wa, "size": 4, "script": [["D", 2], ["X", e], ["D", 4]], "stream": {"lit": [9, 8, 7, 6, 5]}})
             out.append({"kind": "recv", "waitall": wa, "size": 4, "script": [["X", e], ["D", 4]], "stream": {"lit": [9, 8, 7, 6, 5]}})
         out.append({"kind": "send", "blocking": False, "data": {"lit": [1, 2, 3, 4]}, "script": [["D", 1], ["X", e], ["D", 9]]})
+    # long runs of retryable errors inside ONE call (the back-off delay sequence must never run out)
+    for nretry in (12, 13, 14, 15, 25, 40):
+        for e in REQUIRED[:2]:
+            run = [["X", e]] * nretry
+            inter = []
+            for i in range(nretry):
+                inter += [["X", e], ["D", 1]] if i % 3 == 0 else [["X", e]]
+            for wa in (False, True):
+                out.append({"kind": "recv", "waitall": wa, "size": 4, "script": run + [["D", 4]], "stream": {"lit": [9, 8, 7, 6, 5]}})
+                out.append({"kind": "recv", "waitall": wa, "size": 30, "script": [["D", 2]] + inter + [["D", 30]],
+                            "stream": {"pat": [7, 3, 33]}})
+            out.append({"kind": "send", "blocking": False, "data": {"lit": [1, 2, 3, 4]}, "script": [["D", 1]] + run + [["D", 9]]})
     return out
 
 
